@@ -112,11 +112,11 @@ def offchain(c):
     raw = os.path.join(c.scratch, "rel-all.txt")
     beh = os.path.join(c.scratch, "rel.txt")
     vf.extract_behaviours(res.stdout_path, raw)
-    total, kept = _informative(raw, beh, limit=None if thorough else 400, seed=c.seed)
+    total, kept = _informative(raw, beh, limit=6000 if thorough else 400, seed=c.seed)   # ~2 processes x 0.7 s per behaviour
     if kept == 0:
         raise vf.MachineryError("no informative behaviours")
     c.parts.append("%d behaviours end in a block preceded by off-chain requests; %d replayed" % (total, kept))
-    rep = vf.run_harness_sharded("vh-rel", ["replay-rel", "-in", beh], 8, env={"VERIF_SEED": c.seed}, timeout=3400)
+    rep = vf.run_harness_sharded("vh-rel", ["replay-rel", "-in", beh], 12 if thorough else 8, env={"VERIF_SEED": c.seed}, timeout=3400)
     c.add_replay(rep, "ChainRel interleavings executed by real node pairs (A with, B without the off-chain requests)")
     for m in rep.get("mismatches", []):
         c.violation("%s: node that served %s diverged from a node that did not: %s" % (pid, m["want"].get("off_chain"), m["what"]),
@@ -145,7 +145,7 @@ def offchain(c):
         rule="behaviours = transitions of the ChainRel state graph (stake / transfer blocks x CheckTx / simulate / ABCI query / RPC "
              "query at every committed height) that end in a block after at least one off-chain request, each executed by two real "
              "nodes in separate processes; plus random scenarios. non-trivial = contains an off-chain request",
-        exhaustive=thorough)
+        exhaustive=(kept == total))
 
 
 # ------------------------------------------------------------------------------ C12
